@@ -18,6 +18,7 @@
  *   ADVANCE <ns>                   virtual clock; expired timers become readable (one batch, creation order)
  *   EPOLL <h>:<IN|OUT|INOUT|ERR> ...      explicit batch (h = c<N> | t<N> | l<jet|http|uds>)
  *   ALLOCFAIL <n>                  the n-th allocation from now fails (1 = next)
+ *   EPCTLFAIL <n>                  the n-th EPOLL_CTL_ADD from now fails with ENOSPC
  *   JUNK <byte>                    fill pattern for fresh allocations
  *   REPLY c<N> <k> <hex>           c<N> answers the k-th routed request it received: {"id":<that id>,<member text>}
  *   QUIESCE                        snapshot of daemon state
@@ -113,6 +114,8 @@ static bool epoll_open = false;
 static int last_fd_event = -1;
 
 static long alloc_fail_in = 0;
+static long epctl_fail_in = 0;
+extern void __sanitizer_print_stack_trace(void);
 static int junk_byte = -1;
 static unsigned long n_allocs = 0;
 
@@ -252,6 +255,9 @@ static bool alloc_should_fail(void)
 	if (alloc_fail_in > 0) {
 		if (--alloc_fail_in == 0) {
 			out("ALLOCFAILED n=%lu", n_allocs);
+			fprintf(stderr, "ALLOCFAILED-STACK-BEGIN\n");
+			__sanitizer_print_stack_trace();
+			fprintf(stderr, "ALLOCFAILED-STACK-END\n");
 			return true;
 		}
 	}
@@ -372,6 +378,11 @@ int __wrap_epoll_ctl(int epfd, int op, int fd, struct epoll_event *ev)
 	struct simfd *s = use(fd, "epoll_ctl");
 	if (!s) { errno = EBADF; return -1; }
 	if (op == EPOLL_CTL_ADD) {
+		if (epctl_fail_in > 0 && --epctl_fail_in == 0) {
+			out("EPCTLFAILED %s", hname(fd));
+			errno = ENOSPC;
+			return -1;
+		}
 		if (s->registered) { errno = EEXIST; return -1; }
 		s->registered = true;
 		s->data_ptr = ev->data.ptr;
@@ -506,7 +517,7 @@ ssize_t __wrap_writev(int fd, const struct iovec *iov, int cnt)
 	if (m == W_ERR) { out("W %s asked=%zu ret=ERR", hname(fd), total); errno = EPIPE; return -1; }
 	uint8_t *flat = __real_malloc(total + 1);
 	size_t o = 0;
-	for (int i = 0; i < cnt; i++) { memcpy(flat + o, iov[i].iov_base, iov[i].iov_len); o += iov[i].iov_len; }
+	for (int i = 0; i < cnt; i++) { if (iov[i].iov_len) memcpy(flat + o, iov[i].iov_base, iov[i].iov_len); o += iov[i].iov_len; }
 	char *h = hexdup(flat, take);
 	out("W %s asked=%zu ret=%zu %s", hname(fd), total, take, h);
 	free(h);
@@ -558,7 +569,7 @@ int __wrap_buffered_socket_writev(void *this_ptr, struct socket_io_vector *io_ve
 	for (unsigned int i = 0; i < count; i++) total += io_vec[i].iov_len;
 	uint8_t *flat = __real_malloc(total + 1);
 	size_t o = 0;
-	for (unsigned int i = 0; i < count; i++) { memcpy(flat + o, io_vec[i].iov_base, io_vec[i].iov_len); o += io_vec[i].iov_len; }
+	for (unsigned int i = 0; i < count; i++) { if (io_vec[i].iov_len) memcpy(flat + o, io_vec[i].iov_base, io_vec[i].iov_len); o += io_vec[i].iov_len; }
 	char *h = hexdup(flat, total);
 	note_routed(fd, flat, total);
 	free(flat);
@@ -620,7 +631,7 @@ static void snapshot(const char *tag)
 		if (s->open && s->armed) { printf("%st%d@%llu", first ? "" : ",", t, s->deadline); first = 0; }
 	}
 	if (first) printf("-");
-	printf(" now=%llu\n", now_ns);
+	printf(" now=%llu allocs=%lu\n", now_ns, n_allocs);
 	(void)line;
 	if (strcmp(tag, "SNAP") != 0) { fflush(stdout); return; }
 	const struct list_head *pl = get_peer_list();
@@ -982,6 +993,7 @@ static bool exec_line(char *line)
 		return batch_n > 0;
 	}
 	if (strcmp(cmd, "ALLOCFAIL") == 0 && a1) { alloc_fail_in = atol(a1); return false; }
+	if (strcmp(cmd, "EPCTLFAIL") == 0 && a1) { epctl_fail_in = atol(a1); return false; }
 	if (strcmp(cmd, "JUNK") == 0 && a1) { junk_byte = atoi(a1) & 255; return false; }
 	if (strcmp(cmd, "QUIESCE") == 0) { snapshot("SNAP"); return false; }
 	if (strcmp(cmd, "TERM") == 0) { terminated = true; return false; }
